@@ -2,7 +2,7 @@
 from __future__ import annotations
 
 
-def make_project(nfiles=1, nmod=1, nprog=1, nproc=1, ntype=1, nabs=0, nblock=0, nnl=0, nsub=0, ngen=0, pages=None, links=True, private_impls=False):
+def make_project(nfiles=1, nmod=1, nprog=1, nproc=1, ntype=1, nabs=0, nblock=0, nnl=0, nsub=0, ngen=0, pages=None, links=True, private_impls=False, extra_files=False):
     """Return {relative path: text}.  Entities are spread round-robin over `nfiles` source files.
     pages: None | depth (0, 1, 2) of a static page tree."""
     units = []  # (text)
@@ -122,7 +122,9 @@ def make_project(nfiles=1, nmod=1, nprog=1, nproc=1, ntype=1, nabs=0, nblock=0, 
         L.append(f"end subroutine ext{e}")
         units.append("\n".join(L))
     for b in range(1, nblock + 1):
-        units.append("\n".join([f"block data bd{b}", f"  !! doc of block data bd{b}", f"  integer :: bv{b}", f"  common /cblk{b}/ bv{b}", f"end block data bd{b}"]))
+        typed = [f"  type bdt{b}", f"    !! a type defined in block data bd{b}", "    sequence", "    integer :: lo, hi", f"  end type bdt{b}",
+                 f"  type(bdt{b}) :: brange{b}", f"  common /cblkt{b}/ brange{b}"] if (ntype and b == 1) else []
+        units.append("\n".join([f"block data bd{b}", f"  !! doc of block data bd{b}", f"  integer :: bv{b}", f"  common /cblk{b}/ bv{b}"] + typed + [f"end block data bd{b}"]))
     files = {}
     nfiles = max(1, min(nfiles, max(1, len(units))))
     buckets = [[] for _ in range(nfiles)]
@@ -130,6 +132,10 @@ def make_project(nfiles=1, nmod=1, nprog=1, nproc=1, ntype=1, nabs=0, nblock=0, 
         buckets[i % nfiles].append(u)
     for i, b in enumerate(buckets):
         files[f"src/file{i + 1}.f90"] = ("\n".join(b) + "\n") if b else "! empty\n"
+    if extra_files:
+        # non-Fortran sources documented through `extra_filetypes` (the caller sets the option)
+        files["src/run_model.sh"] = "#!/bin/sh\n#! a shell script shipped with the sources\necho run\n"
+        files["src/defaults.yml"] = "#! default parameters\nkey: value\n"
     if pages is not None:
         files["pages/index.md"] = "title: Guide\n\nTop page. See " + ("[sub](sub1/index.html) and " if pages >= 1 else "") + "[leaf](leaf0.html).\n" + ("[[mod1]]\n" if nmod and links else "")
         files["pages/leaf0.md"] = "title: Leaf zero\n\nBack to [top](index.html).\n"
